@@ -112,7 +112,7 @@ class P(Property):
     id = 'C15'
     gen_modules = ['gen_prefixint', 'gen_huffman', 'gen_huffman_enc', 'gen_prefixstring', 'gen_bitwin', 'gen_huffiter']
     properties_v = 'Properties/C15.v'
-    model_targets = ['Model/PrefixString.vo', 'Spec/PrefixInt.vo', 'Spec/RFC7541Huffman.vo', 'Spec/HuffmanKnown.vo']
+    model_targets = ['Model/PrefixString.vo', 'Model/ChunkedQpack.vo', 'Spec/PrefixInt.vo', 'Spec/RFC7541Huffman.vo', 'Spec/HuffmanKnown.vo']
     extract_v = 'Extract/ExtractC15.v'
     driver_ml = 'C15_driver.ml'
     harness_bin = 'c15'
@@ -124,7 +124,13 @@ class P(Property):
             '+-1, 2^64-1) at every truncation, with trailing octets, non-minimal forms up to 11 continuation octets, all 1- and '
             '2-octet inputs, random continuation patterns; pi.enc: sizes x flags x the same values; ps.dec/ps.enc: sizes 2..8 x '
             'raw and Huffman payloads incl. mutated and truncated ones; pi.decc/ps.decc: the same decode inputs as NON-contiguous '
-            'Buf (h3v::ChunkBuf) cut at every position with 1 and 2 cuts; ps.dec/ps.decc with declared lengths L + k*2^w '
+            'Buf (h3v::ChunkBuf) cut at every position with 1 and 2 cuts (inputs up to 20 octets), EVERY one of the 2^(n-1) chunkings of '
+            'inputs of up to 9 octets, one-octet chunks, and LONG inputs: literals of 21..1500 octets (raw) / 21..600 (Huffman; valid, '
+            'bit-flipped, padded with ff, truncated, with trailing octets) for every size 2..8, cut at 1..8 seeded points plus cuts '
+            'inside the continuation octets of the length, at the length/payload border and inside the payload; integers with up to 12 '
+            'continuation octets and trailing octets (> 20 octets in all).  For pi.decc/ps.decc the MODEL column runs '
+            'Model/ChunkedQpack.v (the decoders over the bytes-crate provided methods) on the same chunk list and both sides print '
+            'the chunks of the buffer left behind; ps.dec/ps.decc with declared lengths L + k*2^w '
             '(w in 8,16,32,63,64) over L octets present; he.big/hd.big/ps.rt: seeded strings of 2^8..2^22 octets (+-1) built in '
             'both drivers, results compared as digests (model = extracted model up to 1024 octets, proved-equal native '
             'table-driven code above). non-trivial = distinct cases that get past the first '
@@ -185,6 +191,86 @@ class P(Property):
                 for i in range(1, n):
                     for j in range(i + 1, n):
                         out.append('%sc %s %s.%s.%s' % (fam, size, ''.join(b[:i]), ''.join(b[i:j]), ''.join(b[j:])))
+        out += self.cases_long_chunked(tier, rng, pick)
+        return out
+
+    def cases_long_chunked(self, tier, rng, short):
+        """chunked inputs beyond 20 octets, every chunking of short ones, one-octet chunks"""
+        quick = tier == 'quick'
+        out = []
+
+        def cut(e, cuts):
+            cuts = sorted(c for c in set(cuts) if 0 < c < len(e))
+            return '.'.join(e[a:b_].hex() for a, b_ in zip([0] + cuts, cuts + [len(e)])) or '-'
+
+        def all_chunkings(bs):
+            n = len(bs)
+            for m in range(1 << (n - 1)):
+                yield cut(bs, [i for i in range(1, n) if m >> (i - 1) & 1])
+
+        out.append('pi.decc 5 -')
+        out.append('ps.decc 6 -')
+        # every chunking of short inputs; the same inputs as one-octet chunks
+        sm = [c for c in short if 4 <= len(c.split()[2]) <= 18]
+        for c in rng.sample(sm, min(len(sm), 40 if quick else 2000)):
+            fam, size, h = c.split()
+            for ch in all_chunkings(bytes.fromhex(h)):
+                out.append('%sc %s %s' % (fam, size, ch))
+        for c in short[:: 3 if quick else 1]:
+            fam, size, h = c.split()
+            out.append('%sc %s %s' % (fam, size, '.'.join(h[i:i + 2] for i in range(0, len(h), 2))))
+        # long string literals
+        for size in range(2, 9):
+            n = size - 1
+            for it in range(90 if quick else 9000):
+                huff = it % 3 != 0
+                ln = rng.choice([21, 30, 31, 32, 62, 63, 64, 126, 127, 128, 129, 140, 254, 255, 256, 300, rng.randint(21, 600)])
+                if not huff and it % 9 == 0:
+                    ln = rng.choice([1000, 1200, 1500, rng.randint(600, 1500)])
+                st = rand_string(rng, ln)
+                payload = bytearray(huff_encode(st) if huff else st)
+                k = rng.random()
+                if k < 0.12 and payload:
+                    i = rng.randrange(len(payload) * 8)
+                    payload[i // 8] ^= 0x80 >> (i % 8)
+                elif k < 0.2:
+                    payload += bytes([0xff] * rng.randint(1, 5))
+                elif k < 0.25 and payload:
+                    payload[-1] &= 0xfe
+                f = rng.getrandbits(8 - size) if size < 8 else 0
+                fl = (f << 1 | (1 if huff else 0)) & ((1 << (8 - n)) - 1)
+                hdr = (pi_encode(n, fl, len(payload), 1) if it % 11 == 0 else None) or pi_encode(n, fl, len(payload))
+                e = bytes(hdr) + bytes(payload)
+                k = rng.random()
+                if k < 0.15:
+                    e = e[:rng.randrange(len(hdr), len(e))]            # truncated inside the payload
+                elif k < 0.6:
+                    e += rb(rng, rng.randint(1, 40))                   # trailing octets stay in the buffer
+                cuts = [rng.randint(1, len(e) - 1) for _ in range(rng.randint(1, 8))]
+                m = it % 4
+                if m == 0 and len(hdr) > 1:
+                    cuts.append(rng.randint(1, len(hdr) - 1))           # inside the continuation octets of the length
+                elif m == 1:
+                    cuts.append(len(hdr))                              # between length and payload
+                elif m == 2:
+                    cuts += [len(hdr) + 1, len(hdr) + len(payload) - 1, len(hdr) + len(payload)]
+                else:
+                    cuts += list(range(1, len(hdr) + 2))                # every octet of the length alone
+                out.append('ps.decc %d %s' % (size, cut(e, cuts)))
+        # integers with long continuation runs and trailing octets (more than 20 octets in all)
+        for size in range(1, 9):
+            mask = (1 << size) - 1
+            for it in range(40 if quick else 4000):
+                k = rng.choice([0, 1, 2, 5, 8, 9, 10, 12])
+                body = bytes((rng.getrandbits(8) | 0x80) for _ in range(k)) + bytes([rng.getrandbits(7)])
+                if it % 7 == 0:
+                    v = rng.getrandbits(rng.choice([14, 30, 62, 63, 64]))
+                    body = pi_encode(size, 0, max(v, mask))[1:]
+                e = bytes([((rng.getrandbits(8) << size) & 0xff) | mask]) + body + rb(rng, rng.randint(10, 30))
+                if it % 10 == 0:
+                    e = e[:rng.randint(1, len(body))]                  # truncated inside the run
+                cuts = [rng.randint(1, max(1, len(e) - 1)) for _ in range(rng.randint(1, 6))] + [rng.randint(1, len(body) + 1)]
+                out.append('pi.decc %d %s' % (size, cut(e, cuts)))
         return out
 
     def cases0(self, tier, rng):
@@ -387,10 +473,22 @@ class P(Property):
             return 'panic'
         return out
 
+    @staticmethod
+    def flat_rest(case, out):
+        """pi.decc / ps.decc print the CHUNKS of the buffer left behind (compared implementation-vs-model); the
+        specification oracle knows the flat rest only"""
+        if case.split()[0] in ('pi.decc', 'ps.decc'):
+            w = out.split()
+            if w and w[0] == 'ok' and '.' in w[-1]:
+                w[-1] = w[-1].replace('.', '')
+                return ' '.join(w)
+        return out
+
     def known_class_hit(self, case, out, spec):
         """is (case, lax result `out`) an instance of the open known finding F15b?"""
         if self.kf is None or spec is None:
             return False
+        out = self.flat_rest(case, out)
         w = case.split()
         sw = spec.split()
         if w[0] == 'hd' and sw[:1] == ['err']:
@@ -404,7 +502,7 @@ class P(Property):
     def spec_ok(self, case, out, spec):
         if spec is None:
             return True
-        out = self.canon(case, out)
+        out = self.flat_rest(case, self.canon(case, out))
         fam = case.split()[0]
         if fam == 'hd.blk':
             a, b = out.split(), spec.split()
